@@ -14,5 +14,6 @@ fn generate_protobuf_binding_file() {
 fn generate_protobuf_binding_file() {}
 
 fn main() {
+    println!("cargo::rustc-check-cfg=cfg(prometheus_verif)");
     generate_protobuf_binding_file()
 }
